@@ -87,7 +87,7 @@ def fired_site(stderr):
     i = len(chain) - 1
     while i > 0 and chain[i] in (("token.c", "tokencheck"), ("pp.c", "expect")):
         i -= 1
-    return (chain[i] if chain else None), "\n".join(msg)
+    return (chain[i:] if chain else []), "\n".join(msg)
 
 
 def fmt_regex(site):
@@ -168,7 +168,7 @@ def main():
                         problems.append("msg regex %r does not match %r" % (t["msg"], msg[:160]))
                     if not re.search(fmt_regex(site), msg):
                         problems.append("site format %r does not match %r" % (fmt_regex(site), msg[:160]))
-                    if fired != (site[0], site[1]):
+                    if (site[0], site[1]) not in fired:
                         problems.append("fired at %s, not in %s:%s (%r)" % (fired, site[0], site[1], msg[:100]))
                 orc = c10cat.oracle_rejects(data, tmp)
                 rej = [c for c, (r, _) in orc.items() if r]
